@@ -78,13 +78,14 @@ type contractDB struct {
 	Contracts map[string]*contract
 	Markers   []string // assume/axiom/trusted style markers found
 	Ghosts    map[string]string // ghost state variable -> type
+	Scopes    map[string][]string // property -> root functions: every module function reachable from them is in the property's sweep
 	Files     []string
 }
 
-var clauseKw = regexp.MustCompile(`^(ghost|spec|macro|lemma|contract|external|requires|ensures|emits|callsite|decreases|loop|safety|props|inline|pure|modifies|noreturn|fuel|unreachable)\b`)
+var clauseKw = regexp.MustCompile(`^(scope|ghost|spec|macro|lemma|contract|external|requires|ensures|emits|callsite|decreases|loop|safety|props|inline|pure|modifies|noreturn|fuel|unreachable)\b`)
 
 func newContractDB() *contractDB {
-	return &contractDB{Specs: map[string]*specDef{}, Contracts: map[string]*contract{}, Ghosts: map[string]string{}}
+	return &contractDB{Specs: map[string]*specDef{}, Contracts: map[string]*contract{}, Ghosts: map[string]string{}, Scopes: map[string][]string{}}
 }
 
 // loadContractFile parses one file. pkgPath is the Go package the file belongs to ("" for external files,
@@ -148,6 +149,19 @@ func (db *contractDB) loadContractFile(path, pkgPath string) error {
 			return fmt.Errorf("%s:%d: %s", path, rc.line, fmt.Sprintf(f, a...))
 		}
 		switch kw {
+		case "scope":
+			// scope PROP ROOT...: the property's safety sweep covers every module function reachable from the roots
+			f := strings.Fields(rest)
+			if len(f) < 2 {
+				return fail("scope PROP ROOT...")
+			}
+			for _, r := range f[1:] {
+				if pkgPath != "" && !strings.Contains(r, "/") {
+					r = pkgPath + "." + r
+				}
+				db.Scopes[f[0]] = append(db.Scopes[f[0]], r)
+			}
+			cur = nil
 		case "ghost":
 			f := strings.Fields(rest)
 			if len(f) != 2 {
